@@ -387,12 +387,35 @@ ChangeSuspectToDown(c, t) ==
        ELSE LET c1 == HandleApplySummary([c EXCEPT !.st.mem = s.mem, !.st.nactive = s.nactive],
                                          s, asDown, TRUE)
                 c2 == AdjustConnectionState(c1)
-            IN IF st.cfg.notifydown
+            IN \* (fix 654ac52) the courtesy TurnUndead goes out only when the member was
+               \* actually declared down by this timeout
+               IF s.ok /\ st.cfg.notifydown
                THEN SendMessage(c2, t.id, Msg("TurnUndead", 0, NoId))
                ELSE c2
 
+(***************************************************************************)
+(* announce_to_down (lib.rs:494): k Down records are drawn from ALL Down   *)
+(* records, then those bearing our own address are skipped (fix 3f5c312),  *)
+(* so the number of Announces is n minus the number of own-address records *)
+(* that happened to be drawn.                                              *)
+(***************************************************************************)
 AnnounceToDown(c, k) ==
-    ChooseAndSend(c, k, Msg("Announce", 0, NoId), {m.id : m \in DownRecs(c.st.mem)})
+    IF ~Live(c) THEN c ELSE
+    LET down == {m.id : m \in DownRecs(c.st.mem)}
+        own == {i \in down : Addr(i) = Addr(c.st.id)}
+        others == down \ own
+        n == Min(k, Cardinality(down))
+        avail == Max(Len(c.sends) - c.ti + 1, 0)
+        m == Min(avail, Min(n, Cardinality(others)))
+        dsts == [i \in 1..m |-> c.sends[c.ti + i - 1].dst]
+        valid == IsDistinct(dsts) /\ Range(dsts) \subseteq others
+        msg == Msg("Announce", 0, NoId)
+    IN IF m > 0 /\ WouldPanic(c) THEN [c EXCEPT !.panic = TRUE]
+       ELSE LET c1 == SendEach([c EXCEPT !.ok = @ /\ valid], dsts, msg) IN
+            IF ~Live(c1) THEN c1
+            ELSE IF m >= n - Cardinality(own) THEN c1
+            ELSE IF \E e \in others \ Range(dsts) : ~HeaderFits(c1.st, e, msg) THEN Fail(c1, "Err:Encode")
+            ELSE [c1 EXCEPT !.ok = FALSE]
 
 HandleTimer(st, t, tape, hl, dbg) ==
     LET c == Ctx(st, tape, hl, dbg)
@@ -552,7 +575,9 @@ ConfigRefused(old, new) ==
 DoSetConfig(st, a, tape, hl, dbg) ==
     LET c == Ctx(st, tape, hl, dbg) IN
     IF ConfigRefused(st.cfg, a.cfg) THEN Finish(Fail(c, "Err:InvalidConfig"), "Ok")
-    ELSE Finish([c EXCEPT !.st.cfg = a.cfg], "Ok")
+    ELSE \* (fix 66b62cc) the send buffer is re-created when max_packet_size changes
+         Finish([c EXCEPT !.st.cfg = a.cfg,
+                          !.st.bufcap = IF a.cfg.maxpkt # st.cfg.maxpkt THEN a.cfg.maxpkt ELSE @], "Ok")
 
 \* dispatcher
 Step(st, call, args, tape, hl, dbg) ==
